@@ -466,7 +466,7 @@ let run_history_case c =
   let is_rescript s = String.length s > 9 && String.sub s 0 9 = "rescript:" in
   let ops = List.map (fun s -> if is_rescript s then (Some (str_of_string (unhex (String.sub s 9 (String.length s - 9)))), ODump)
                                else (None, dec_op objs s)) ops in
-  let fuel = nat_of_int !default_fuel in
+  let fuel = nat_of_int (match int_of_string_opt (field c "fuel") with Some n when n > 0 -> n | _ -> !default_fuel) in
   (* the reference interpreter (Spec/Exec.v) on the syntax tree, from the same state, for every Execute/Run *)
   let spec_of (e : eval) (ob : hostval) : string =
     match e.emachine with
